@@ -27,11 +27,14 @@ LEVEL_TEXT = ("Machine-checked proof (Coq, closed under the global context) over
               "decryption). Tied to packet.py by a "
               "differential run of real Packetizer receivers with toy engines on tampered streams; the real "
               "primitives are covered by an exhaustive single-byte-fault enumeration on recorded encrypted streams.")
-LEVEL_NOTE = ("Partial proof: C02_prefix is proved for AEAD and ETM, not for the classic path; nonce distinctness "
+LEVEL_NOTE = ("Partial proof: the multi-packet theorem C02_prefix is proved for AEAD and ETM; for the classic "
+              "(MAC-then-encrypt) path only C02_no_deliver_before_check, C02_mac_covers_packet and the single-step "
+              "C02_classic_step_packet_partial are proved (missing: a byte-range law for decryption output and the "
+              "induction with states equal up to the cipher context); nonce distinctness "
               "(< 2^32 packets per key, IV counter < 2^64) is an explicit hypothesis; symbolic MAC/AEAD premise (an accepted event was produced by the key "
               "owner) is a premise, not a property of HMAC/GCM. Trusted: Coq kernel + vm_compute; hand-written "
               "model coq/Model/C01.v validated by the correspondence run; real primitives tested only.")
-TECHNIQUE = "Coq proof (inversion of the reader) + vm_compute differential correspondence on tampered streams + exhaustive single-fault enumeration on real ciphers"
+TECHNIQUE = "fail-closed AST translator gen/c02.py (comparison function, MAC input, statement order of read_message) + Coq proof (inversion of the reader) + vm_compute differential correspondence on tampered streams + exhaustive single-fault enumeration on real ciphers"
 
 
 def is_prefix(a, b):
@@ -380,12 +383,13 @@ def run(ctx):
                 "cipher x MAC): streams of 4-6 messages, every byte position x {flip low, flip high, zero, delete, "
                 "insert}, all packet drops/replays/swaps, seeded multi-fault edits; every case distinct")
     ctx.trusted += ["model coq/Model/C01.v (shared with C01) is hand-written; tied to paramiko/packet.py by the "
-                    "differential run on tampered toy streams",
+                    "differential run on tampered toy streams and by the C02_source_* theorems over "
+                    "coq/Gen/C02_gen.v (translator gen/c02.py, fail closed)",
                     "HMAC / AES-GCM unforgeability is a symbolic premise; real primitives covered by the "
                     "exhaustive single-fault enumeration only"]
     ctx.assumptions += ["symbolic MAC/AEAD premise: an accepted tag was produced by the key owner for exactly these "
                         "bytes", "fewer than 2^32 packets under one key (rekeying, C10)"]
-    ctx.prove(gens=[])
+    ctx.prove()
 
     toy_tamper_corr(ctx)
 
